@@ -266,6 +266,9 @@ func WithLayerDigestAlgo(algo digest.Algorithm) Opts {
 			if dl.mod == unchanged {
 				dl.mod = replaced
 				dl.newDesc = dl.desc
+			} else if dl.mod == added && dl.newDesc.MediaType == "" {
+				// an added layer only has its descriptor, keep the media type
+				dl.newDesc = dl.desc
 			}
 			dl.newDesc.Digest = ""
 			err := dl.newDesc.DigestAlgoPrefer(algo)
